@@ -97,6 +97,11 @@ class RefHSM(object):
         actions.append(('decline', n))
         n = sp.parent[n]
         continue
+      if r['kind'] == 'swallow':
+        actions.append(('swallow', n))
+        kind = 'ignored'
+        S = n
+        break
       if r['kind'] == 'hook':
         actions.append(('hook', n))
         self._fx(r.get('fx'), fx)
